@@ -18,6 +18,7 @@
 
 #include "rkcommon/tasking/parallel_for.h"
 #include "rkcommon/tasking/parallel_foreach.h"
+#include "rkcommon/tasking/schedule.h"
 #include "rkcommon/tasking/tasking_system_init.h"
 #ifdef RKCOMMON_TASKING_INTERNAL
 #include "rkcommon/verif/hooks.h"
@@ -111,7 +112,11 @@ struct Mon
 
   inline void enter()
   {
-    entered.fetch_add(1, std::memory_order_relaxed);
+    // a loop that keeps invoking the callback far beyond n would never end: cut it short
+    if (entered.fetch_add(1, std::memory_order_relaxed) == 2 * n + 300000) {
+      vh::violation("C01:runaway:callback-invoked-without-end", "more than 2n+300000 callback invocations for a loop of n=" + std::to_string(n) + "; the loop was cut short", "see the preceding case");
+      vh::abandonChild();
+    }
     if (returned.load(std::memory_order_seq_cst))
       sawReturned.fetch_add(1);
   }
@@ -127,6 +132,12 @@ struct Mon
       bool exp = false;
       if (outOfRange.compare_exchange_strong(exp, true))
         firstOutOfRange.store(idx);
+      // a loop that keeps producing indices outside its range would never end: cut it short
+      static std::atomic<long> runaway(0);
+      if (runaway.fetch_add(1) == 200000) {
+        vh::violation("C01:runaway:indices-outside-range", "more than 200000 callback invocations for indices outside [0,n), first " + std::to_string(firstOutOfRange.load()) + " (n=" + std::to_string(n) + "); the loop was cut short", "see the preceding case");
+        vh::abandonChild();
+      }
       if (idx >= n && idx < n + GUARD)
         hits[idx].fetch_add(1, std::memory_order_relaxed);
       return;
@@ -431,6 +442,27 @@ static void runForeach(const Case &c, const std::string &ctx, uint64_t cs)
   }
 }
 
+#define BY_TYPE_FP(FN)                                            \
+  switch (c.type) {                                               \
+  case 0: FN<unsigned char>(c, ctx, cs + i); break;               \
+  case 1: FN<short>(c, ctx, cs + i); break;                       \
+  case 2: FN<int>(c, ctx, cs + i); break;                         \
+  case 3: FN<unsigned>(c, ctx, cs + i); break;                    \
+  case 4: FN<long>(c, ctx, cs + i); break;                        \
+  case 5: FN<long long>(c, ctx, cs + i); break;                   \
+  case 6: FN<unsigned long long>(c, ctx, cs + i); break;          \
+  default: FN<size_t>(c, ctx, cs + i); break;                     \
+  }
+#define BY_WIDE_TYPE_FP(FN)                                       \
+  switch (c.type) {                                               \
+  case 2: FN<int>(c, ctx, cs + i); break;                         \
+  case 3: FN<unsigned>(c, ctx, cs + i); break;                    \
+  case 4: FN<long>(c, ctx, cs + i); break;                        \
+  case 5: FN<long long>(c, ctx, cs + i); break;                   \
+  case 6: FN<unsigned long long>(c, ctx, cs + i); break;          \
+  default: FN<size_t>(c, ctx, cs + i); break;                     \
+  }
+
 static void runCase(const Case &c, long k, int T)
 {
   std::string ctx = describe(c, k, T);
@@ -470,6 +502,71 @@ static void runCase(const Case &c, long k, int T)
   vh::count(apis[c.api]);
   vh::count((std::string("type_") + kTypeNames[c.type]).c_str());
 }
+
+// ------------------------------------------------------------------ loops issued while the caller's task pipe is full
+// Internal backend: every worker is parked in a blocking schedule()d task and the calling
+// thread's 256-slot pipe is filled with further tasks nobody can take.  A parallel loop issued
+// now cannot queue its partitions and has to run them through the scheduler's run-inline
+// path.  The per-call monitors judge the loops exactly as everywhere else.
+#ifdef RKCOMMON_TASKING_INTERNAL
+static void fullPipeScenario(long k, int T, uint64_t cs)
+{
+  vh::Rng r(cs, 5);
+  std::atomic<int> started(0), finished(0);
+  std::atomic<bool> release(false);
+  std::atomic<int> *pStarted = &started, *pFinished = &finished;
+  std::atomic<bool> *pRelease = &release;
+  int blockers = T - 1;
+  for (int i = 0; i < blockers; ++i)
+    schedule([pStarted, pFinished, pRelease]() {
+      pStarted->fetch_add(1);
+      while (!pRelease->load())
+        std::this_thread::sleep_for(std::chrono::microseconds(50));
+      pFinished->fetch_add(1);
+    });
+  double t0 = vh::now();
+  while (started.load() < blockers && vh::now() - t0 < 10.0)
+    std::this_thread::sleep_for(std::chrono::microseconds(50));
+  if (started.load() < blockers) {
+    vh::inconclusive("full-pipe scenario: the workers did not pick up the parking tasks");
+    release.store(true);
+    return;
+  }
+  int fillers = 256;  // the pipe holds 256 entries; nobody reads them while the workers are parked
+  for (int i = 0; i < fillers; ++i)
+    schedule([pFinished]() { pFinished->fetch_add(1); });
+  std::string base = "#" + std::to_string(k) + " threads=" + std::to_string(T) + " [caller's task pipe full: " + std::to_string(blockers) + " parked workers + " + std::to_string(fillers) + " queued tasks] ";
+  // loops of many sizes incl. non-multiples of every partition size
+  long long ns[] = {1, 2, 3, 5, T - 1, T, T + 1, 12, 13, 17, 100, 119, 120, 121, 1000, 1201, 4099, (long long)r.range(1, 20000), (long long)r.range(1, 300)};
+  for (size_t i = 0; i < sizeof(ns) / sizeof(ns[0]); ++i) {
+    if (ns[i] <= 0)
+      continue;
+    Case c;
+    c.api = 0, c.type = (int)(i % 8), c.n = ns[i], c.bs = (int)(i % 7), c.cont = 0, c.cost = 0, c.inject = 0, c.inner = 0, c.grace = false;
+    std::string ctx = base + describe(c, k, T);
+    // the loop body must not be allowed to run away if the range handling is broken
+    switch (i % 3) {
+    case 0: BY_TYPE_FP(runPF); break;
+    case 1: c.api = 1; c.type = 2 + (int)(i % 6); ctx = base + describe(c, k, T); BY_WIDE_TYPE_FP(runBlocks); break;
+    default: {
+      c.api = 2, c.cont = 0, c.type = 7;
+      ctx   = base + describe(c, k, T);
+      runForeach(c, ctx, cs + i);
+      break;
+    }
+    }
+    vh::count("calls_with_full_pipe");
+  }
+  release.store(true);
+  t0 = vh::now();
+  while (finished.load() < blockers + fillers && vh::now() - t0 < 30.0)
+    std::this_thread::sleep_for(std::chrono::microseconds(100));
+  if (finished.load() < blockers + fillers)
+    vh::inconclusive("full-pipe scenario: scheduled tasks did not drain");
+  vh::evaluated(vh::hash64(cs, 77), true);
+  vh::count("full_pipe_scenarios");
+}
+#endif
 
 static std::vector<Case> buildCases(int T, bool asan, bool internalBackend)
 {
@@ -606,5 +703,21 @@ int main(int argc, char **argv)
         60000, 100000, [&](long k) { return std::string("C01-call ") + describe(cases[k], k, T); });
     vh::count("thread_configurations");
   }
+#ifdef RKCOMMON_TASKING_INTERNAL
+  {
+    // loops issued while the caller's pipe is full: a fresh process per scenario
+    static const int Tf[] = {3, 4, 8, 16, 5, 12};
+    long nfp = vh::tier(12, 120);
+    vh::forkedCases(
+        nfp,
+        [&](long k) {
+          int T = Tf[k % 6];
+          initTaskingSystem(T);
+          myTid();
+          fullPipeScenario(k, T, vh::hash64(vh::seed(), 424242 + (uint64_t)k));
+        },
+        120000, 1, [&](long k) { return std::string("C01-full-pipe #") + std::to_string(k) + " threads=" + std::to_string(Tf[k % 6]); });
+  }
+#endif
   return vh::finish();
 }
